@@ -82,14 +82,15 @@ Qed.
 Lemma take_str_miss kw w mk rest : str_eqb w kw = false -> take_str kw (Leaf w mk :: rest) = (false, Leaf w mk :: rest).
 Proof. intros H. unfold take_str, take, peek_str, source_equal. cbn [Lex.Model.source]. rewrite H. reflexivity. Qed.
 
+Ltac limit_step := cbv beta iota zeta; cbn [negb pop_src Lex.Model.source as_int bind].
 Lemma limit_offset_spelling n m zn zm rest : py_int n = Some zn -> py_int m = Some zm ->
   parse_limit (Leaf (S "LIMIT") 0 :: Leaf n 72 :: Leaf (S "OFFSET") 0 :: Leaf m 72 :: rest)
   = Ok (node "ASTLimitClause" [("limit", VInt zn); ("offset", VInt zm)], rest).
 Proof.
   intros Hn Hm. unfold parse_limit.
-  rewrite take_up_hit by (vm_compute; reflexivity). cbn [negb pop_src Lex.Model.source as_int]. rewrite Hn.
-  rewrite take_str_miss by (vm_compute; reflexivity).
-  rewrite take_up_hit by (vm_compute; reflexivity). cbn [pop_src Lex.Model.source as_int]. rewrite Hm. reflexivity.
+  rewrite take_up_hit by (vm_compute; reflexivity). limit_step. unfold as_int. rewrite Hn. limit_step.
+  rewrite take_str_miss by (vm_compute; reflexivity). limit_step.
+  rewrite take_up_hit by (vm_compute; reflexivity). limit_step. rewrite Hm. reflexivity.
 Qed.
 
 Lemma limit_comma_spelling n m zn zm rest : py_int n = Some zn -> py_int m = Some zm ->
@@ -97,6 +98,6 @@ Lemma limit_comma_spelling n m zn zm rest : py_int n = Some zn -> py_int m = Som
   = Ok (node "ASTLimitClause" [("limit", VInt zn); ("offset", VInt zm)], rest).
 Proof.
   intros Hn Hm. unfold parse_limit.
-  rewrite take_up_hit by (vm_compute; reflexivity). cbn [negb pop_src Lex.Model.source as_int]. rewrite Hm.
-  rewrite take_str_hit. cbn [pop_src Lex.Model.source as_int]. rewrite Hn. reflexivity.
+  rewrite take_up_hit by (vm_compute; reflexivity). limit_step. unfold as_int. rewrite Hm. limit_step.
+  rewrite take_str_hit. limit_step. rewrite Hn. reflexivity.
 Qed.
